@@ -84,10 +84,6 @@ Definition nonzero_bit (x:av) : option bt :=
   | [b] => Some b
   | _ => None
   end.
-(* the low bit of a value known to be 0 or 1 *)
-Definition as_bit (x:av) : option bt :=
-  if forallb (bt_eqb B0) (skipn 1 (bits x)) && bt_eqb (sgn x) B0 then Some (bit_at x 0) else None.
-
 Definition av_eqb (x y:av) : bool :=
   let n := Nat.max (length (bits x)) (length (bits y)) in
   forallb (fun i => bt_eqb (bit_at x i) (bit_at y i)) (seq 0 n) && bt_eqb (sgn x) (sgn y).
